@@ -49,9 +49,13 @@ HReq ==
 \* the caller gets the last attempt's response (or error), readable to the end
 HFinal ==
   /\ l <= Len(Trace) /\ Line.ev = "Final" /\ ~fin /\ att >= 1
-  /\ LET r == Resp(att) IN
+  /\ LET r == Resp(att)
+         \* the adapter's default retry policy (no ReturnLastFailure): exhausted retries end in an ExceededError that carries the LAST attempt's response
+         plainRetry == \E j \in 1..Len(hc.policies) : hc.policies[j] = "retryx"
+         exhausted == plainRetry /\ Retryable(r) /\ att = hc.maxRetries + 1 IN
      /\ Must("retriesAllRetryable", ~Retryable(r) \/ att = hc.maxRetries + 1 \/ att = Len(hc.script))         \* nothing left to retry
-     /\ IF r.err = "none" THEN Must("lastResponse", Line.status = r.status) /\ Must("bodyReadable", Line.bodyReadable /\ Line.bodyEqual)
+     /\ IF exhausted THEN Must("exceededCarriesLast", "exceeded" \in DOMAIN Line /\ Line.exStatus = (IF r.err = "none" THEN r.status ELSE -1))
+        ELSE IF r.err = "none" THEN Must("lastResponse", Line.status = r.status) /\ Must("bodyReadable", Line.bodyReadable /\ Line.bodyEqual)
         ELSE Must("lastError", Line.status = -1)
   /\ fin' = TRUE /\ UNCHANGED <<hc, att, lastEnd>> /\ l' = l + 1
 
